@@ -259,7 +259,7 @@ def generating_set(rules, V):
 def treesums(rules, V, num, pivots):
     """Total weight of all derivation trees per nonterminal (least solution), in closed form
     when every SCC of the dependency graph is linear; OutOfBounds otherwise."""
-    rules = _live_rules(rules)
+    rules = [r for r in _live_rules(rules) if r[1] not in V]  # a symbol of V is a terminal: its "rules" are never used
     gen = generating_set(rules, V)
     rules = [r for r in rules if r[1] in gen and all(y in gen for y in r[2])]
     N = nonterminals(rules, V)
@@ -302,7 +302,7 @@ def null_weights(rules, V, num, pivots):
 
 def inside_table(rules, V, xs, num, pivots):
     """I[X, i, k] = total weight of derivations of xs[i:k] from X (all nonterminals, all spans)."""
-    rules = _live_rules(rules)
+    rules = [r for r in _live_rules(rules) if r[1] not in V]
     N = nonterminals(rules, V)
     idx = {X: i for i, X in enumerate(N)}
     n = len(xs)
@@ -367,7 +367,7 @@ def string_weight(rules, V, S, xs, num, pivots):
 def prefix_weight(rules, V, S, p, num, pivots):
     """Total weight of all derivations from S whose yield begins with p (each (derivation) once)."""
     p = tuple(p)
-    rules = _live_rules(rules)
+    rules = [r for r in _live_rules(rules) if r[1] not in V]
     n = len(p)
     Z = treesums(rules, V, num, pivots)
     if n == 0:
